@@ -180,6 +180,10 @@ HookFails(op, hs, stackPre) ==
   \* an edit made inside a context is recorded in the TOP context, and nothing is recorded without one
   \cup (IF op.a \in EditActions /\ (\E k \in 1..n : hs[k].e = "ctx.register" /\ (depth = 0 \/ hs[k].m # stackPre[depth]))
         THEN {"RecordsIntoTop"} ELSE {})
+  \* an analysis that is not documented to modify the model works in contexts of its own: it leaves nothing
+  \* in the undo logs of the caller's open contexts (a record left there is replayed when the caller leaves)
+  \cup (IF op.a = "Analyze" /\ (\E k \in 1..n : hs[k].e = "ctx.register" /\ (\E j \in 1..depth : hs[k].m = stackPre[j]))
+        THEN {"AnalysisRecordsNothingInCallerContext"} ELSE {})
 MgrNext(op, hs, stackPre, raised) ==
   IF op.a = "Enter" /\ Len(hs) >= 1 /\ hs[1].e = "ctx.enter" THEN Append(stackPre, hs[1].m)
   ELSE IF op.a = "Exit" /\ Len(stackPre) > 0 /\ Len(hs) >= 1 /\ hs[1].e = "ctx.exit" THEN SubSeq(stackPre, 1, Len(stackPre) - 1)
